@@ -90,6 +90,12 @@ class SigmaCollection:
         This must be called before referencing rules are converted into queries to make references available.
         """
         for rule in self.rules:
+            # The references are determined for this collection, a rule object can be used in
+            # another collection before.
+            if isinstance(rule, (SigmaRule, SigmaCorrelationRule)):
+                rule.reset_references()
+
+        for rule in self.rules:
             # Resolves all rule references in the rules property to actual Sigma rules.
             if isinstance(rule, SigmaCorrelationRule):
                 rule.resolve_rule_references(self)
